@@ -115,7 +115,8 @@ theorem C06_seek_start_refused_iff (h : H) (st : Bytes) (n : Nat) :
 
 /-- a dirty, partially filled window over a non-empty store -/
 example : ∃ h st, Inv h st ∧ h.dirty = true ∧ 0 < h.pos ∧ h.pos < h.win.length ∧ st ≠ [] := by
-  refine ⟨{ totalLen := 6, win := [9, 9, 9, 9], dataLen := 1024, pos := 2, maxSize := 1024,
+  -- (buffer sizes are the generated minimum, whatever the source says it is)
+  refine ⟨{ totalLen := 6, win := [9, 9, 9, 9], dataLen := bufMin, pos := 2, maxSize := bufMin,
             off := 2, dirty := true }, [1, 2, 3, 4, 5], ?_, rfl, by decide, by decide, by simp⟩
   refine ⟨by decide, by decide, by decide, by decide, by decide, by decide, ?_⟩
   intro h; cases h
